@@ -209,8 +209,8 @@ Proof.
   - unfold recv_csnp. pose proof (snp_entries_wf l s i H) as H1. unfold wf in *. simpl.
     rewrite map_keys; auto. intros kv. apply csnp_missing_key.
   - apply snp_entries_wf. auto.
-  - unfold tick. pose proof (age_nodup (own s) (db s) H) as Ha.
-    destruct (age (own s) (db s)) as [d req]. unfold wf. simpl in *. exact Ha.
+  - unfold tick. pose proof (age_nodup (local_id s) (db s) H) as Ha.
+    destruct (age (local_id s) (db s)) as [d req]. unfold wf. simpl in *. exact Ha.
   - unfold service. destruct (pending s); auto. apply regen_wf. exact H.
   - apply regen_wf. exact H.
   - exact H.
@@ -235,7 +235,7 @@ Proof.
     destruct (seq e <? sq); simpl; auto. destruct (sq =? seq e); simpl; auto.
   - unfold recv_csnp. simpl. destruct (snp_entries_fields l s i) as (H1 & H2 & _). auto.
   - unfold recv_psnp. destruct (snp_entries_fields l s i) as (H1 & H2 & _). auto.
-  - unfold tick. destruct (age (own s) (db s)). simpl. auto.
+  - unfold tick. destruct (age (local_id s) (db s)). simpl. auto.
   - unfold service. destruct (pending s); simpl; auto.
 Qed.
 
@@ -308,8 +308,8 @@ Lemma tick_lookup : forall s k, wf s ->
   | Some e => if life e <=? 1 then None else Some (mkE (seq e) (life e - 1) (srm e) (ssn e))
   end.
 Proof.
-  intros s k H. unfold tick. pose proof (age_lookup (own s) (db s) k H) as Ha.
-  destruct (age (own s) (db s)) as [d req]. simpl in *. exact Ha.
+  intros s k H. unfold tick. pose proof (age_lookup (local_id s) (db s) k H) as Ha.
+  destruct (age (local_id s) (db s)) as [d req]. simpl in *. exact Ha.
 Qed.
 
 Lemma regen_lookup_other : forall s k, k <> local_id s -> lookup k (db (regen s)) = lookup k (db s).
@@ -727,8 +727,8 @@ Proof.
     destruct (mentioned k0 l); [injection Hf as _ Hf; subst; auto |].
     injection Hf as _ Hf. subst. apply set_srm_ok. auto.
   - apply snp_entries_ok. auto.
-  - unfold tick. intros x e Hin. pose proof (age_In (own s) (db s) x e) as Ha.
-    destruct (age (own s) (db s)) as [d req]. simpl in *.
+  - unfold tick. intros x e Hin. pose proof (age_In (local_id s) (db s) x e) as Ha.
+    destruct (age (local_id s) (db s)) as [d req]. simpl in *.
     destruct (Ha Hin) as (e0 & H0 & Hs & Hr). destruct (Hok x e0 H0) as [G1 G2].
     split.
     + intros Hz. rewrite Hr. apply G1. congruence.
@@ -775,31 +775,30 @@ Proof.
   - rewrite Hl. unfold default_lifetime. lia.
 Qed.
 
-Lemma age_req : forall o t k e, lookup k t = Some e -> sys k = o -> life e < refresh_threshold ->
+Lemma age_req : forall o t e, lookup o t = Some e -> life e < refresh_threshold ->
   snd (age o t) = true.
 Proof.
-  induction t as [| [k' e'] r IH]; intros k e Hl Hs Hlt; simpl in *; try discriminate.
+  induction t as [| [k' e'] r IH]; intros e Hl Hlt; simpl in *; try discriminate.
   destruct (age o r) as [r' req'] eqn:Ea. simpl in *.
-  destruct (id_eqb k' k) eqn:E.
-  - apply id_eqb_eq in E. subst k'. injection Hl as Hl. subst e'.
-    assert (H1 : (sys k =? o) = true) by (apply N.eqb_eq; auto).
+  destruct (id_eqb k' o) eqn:E.
+  - injection Hl as Hl. subst e'.
     assert (H2 : (life e <? refresh_threshold) = true) by (apply N.ltb_lt; auto).
-    rewrite H1, H2. destruct (life e <=? 1); reflexivity.
-  - specialize (IH k e Hl Hs Hlt). subst req'. destruct (life e' <=? 1); simpl; apply orb_true_r.
+    rewrite H2. destruct (life e <=? 1); reflexivity.
+  - specialize (IH e Hl Hlt). subst req'. destruct (life e' <=? 1); simpl; reflexivity.
 Qed.
 
 Lemma tick_aging : forall s, wf s -> fresh s -> aging (tick s).
 Proof.
   intros s Hwf (e & He & Hl).
   assert (Hid : local_id (tick s) = local_id s).
-  { unfold local_id, tick. destruct (age (own s) (db s)). reflexivity. }
+  { unfold local_id, tick. destruct (age (local_id s) (db s)). reflexivity. }
   unfold aging. rewrite Hid. rewrite tick_lookup; auto. rewrite He.
   assert (H1 : (life e <=? 1) = false) by (apply N.leb_gt; lia). rewrite H1.
   eexists. split; [reflexivity |]. simpl.
   destruct (N.lt_ge_cases (life e) 300) as [Hlt | Hge].
   - right. split; [| lia].
-    unfold tick. pose proof (age_req (own s) (db s) (local_id s) e He eq_refl Hlt) as Hr.
-    destruct (age (own s) (db s)) as [d req]. simpl in *. subst req. apply orb_true_r.
+    unfold tick. pose proof (age_req (local_id s) (db s) e He Hlt) as Hr.
+    destruct (age (local_id s) (db s)) as [d req]. simpl in *. subst req. apply orb_true_r.
   - left. lia.
 Qed.
 
@@ -1016,7 +1015,7 @@ Proof.
             congruence.
           + rewrite <- Hid in E2, H1. eapply IH; eauto. }
       rewrite (Hz l s He e0 He0). lia.
-  - assert (Hcn : counter (tick s) = counter s) by (unfold tick; destruct (age (own s) (db s)); reflexivity).
+  - assert (Hcn : counter (tick s) = counter s) by (unfold tick; destruct (age (local_id s) (db s)); reflexivity).
     split; [rewrite Hcn; exact H1 |].
     intros e0 He0. assert (Hid : local_id (tick s) = local_id s) by apply (step_local_id s Tick).
     rewrite Hid in He0. rewrite Hcn.
